@@ -25,7 +25,6 @@ StoreOf(first, init, ts) ==
    certs |-> [j \in 1..Len(ts) |-> [inst |-> first + j - 1,
                                      delta |-> Diff(IF j = 1 THEN init ELSE ts[j - 1], ts[j]),
                                      commit |-> ts[j]]]]
-Stores == {StoreOf(f, i, ts) : f \in Firsts, i \in Tables, ts \in UNION {TableSeqs(n) : n \in 1..MaxLen}}
 
 Manifests(st) == {NoManifest, [on |-> TRUE, first |-> st.first, hasTable |-> FALSE, table |-> Fail],
                   [on |-> TRUE, first |-> st.first, hasTable |-> TRUE, table |-> st.init]}
@@ -56,12 +55,13 @@ Corruptions(s, st) ==
 BadManifests(st) == {[on |-> TRUE, first |-> st.first + 1, hasTable |-> FALSE, table |-> Fail],
                      [on |-> TRUE, first |-> st.first, hasTable |-> TRUE, table |-> Plus(st.init, Bump)]}
 
-StoreCases ==
-  UNION {UNION {     {[kind |-> "roundtrip", st |-> st, e |-> e, m |-> m, s |-> Export(st, e), class |-> "none"] : m \in Manifests(st)}
-               \cup {[kind |-> "corrupt", st |-> st, e |-> e, m |-> NoManifest, s |-> x.s, class |-> x.class] : x \in Corruptions(Export(st, e), st)}
-               \cup {[kind |-> "corrupt", st |-> st, e |-> e, m |-> m, s |-> Export(st, e), class |-> "manifest"] : m \in BadManifests(st)}
-               : e \in st.first..Latest(st)} : st \in Stores}
-MCInitStores == c \in StoreCases
+CasesOf(st, e) ==
+       {[kind |-> "roundtrip", st |-> st, e |-> e, m |-> m, s |-> Export(st, e), class |-> "none"] : m \in Manifests(st)}
+  \cup {[kind |-> "corrupt", st |-> st, e |-> e, m |-> NoManifest, s |-> x.s, class |-> x.class] : x \in Corruptions(Export(st, e), st)}
+  \cup {[kind |-> "corrupt", st |-> st, e |-> e, m |-> m, s |-> Export(st, e), class |-> "manifest"] : m \in BadManifests(st)}
+MCInitStores ==
+  \E f \in Firsts, i \in Tables, n \in 1..MaxLen : \E ts \in TableSeqs(n) :
+    LET st == StoreOf(f, i, ts) IN \E e \in f..Latest(st) : c \in CasesOf(st, e)
 MCSpecStores == MCInitStores /\ [][UNCHANGED c]_c
 
 StoresWellFormed == WellFormed(c.st)
